@@ -33,6 +33,23 @@ def registrations(hf):
     return out
 
 
+def _mentions_attr(node, attr):
+    """Does the printer read attribute `attr` of something (x.attr, (. x attr), (getattr x "attr" ...))?"""
+    alts = {attr, attr.replace("_", "-"), attr.replace("-", "_")}
+    for n in node.walk():
+        if n.kind == "sym" and "." in n.val and n.val.split(".")[-1] in alts:
+            return True
+        if n.kind == "expr" and n.head() == "getattr" and len(n.items) > 2 and n.items[2].kind == "str" and n.items[2].val in alts:
+            return True
+        if n.kind == "expr" and n.head() == "." and any(i.kind == "sym" and i.val in alts for i in n.items[2:]):
+            return True
+    return False
+
+
+def _has_text(node, piece):
+    return any(n.kind in ("str", "fstr", "bstr") and piece in n.src() for n in node.walk()) or piece in node.src()
+
+
 def check(ctx, src):
     ctx.rule("REPR-REG", "every model class the reader can produce has a registered printer, or falls back to a base repr that is valid Hy")
     ctx.rule("REPR-ATTRS", "every constructor attribute the reader sets (brackets, conversion, is_tstring) is consulted by the class's printer; `expression` is re-derived by the reader")
@@ -49,13 +66,13 @@ def check(ctx, src):
     # --- String / Bytes
     f, p = regs["hy.models.String"]
     t = p.src()
-    ctx.check('(getattr x "brackets" None)' in t and "#[{x.brackets}[{x}]{x.brackets}]" in t, "REPR-ATTRS", f"{REL}|String|brackets", "the String printer does not reproduce bracket strings with their delimiter", REL, f.line,
+    ctx.check(_mentions_attr(p, "brackets") and _has_text(p, "#[") and _has_text(p, "]"), "REPR-ATTRS", f"{REL}|String|brackets", "the String printer does not reproduce bracket strings with their delimiter", REL, f.line,
               witness="(hy.repr '#[d[a\"b]d]) prints an ordinary literal (brackets lost)", detail="#[D[…]D]")
     ctx.check('(if (isinstance x bytes) "b" "")' in t, "REPR-ATTRS", f"{REL}|Bytes|prefix", "bytes are not printed with the b prefix", REL, f.line, detail="b prefix")
     # --- FComponent
     f, p = regs["hy.models.FComponent"]
     t = p.src()
-    ctx.check("(if x.conversion" in t and "!{x.conversion}" in t, "REPR-ATTRS", f"{REL}|FComponent|conversion", "the FComponent printer does not print the conversion", REL, f.line, detail="!c")
+    ctx.check(_mentions_attr(p, "conversion") and _has_text(p, "!"), "REPR-ATTRS", f"{REL}|FComponent|conversion", "the FComponent printer does not print the conversion", REL, f.line, detail="!c")
     ctx.check("(hy-repr (get x 0))" in t, "REPR-CHILDREN", f"{REL}|FComponent|value", "the FComponent printer does not print its value form", REL, f.line, detail="(get x 0)")
     ok_all = "(cut x 1 None)" in t and "(get x 1)" not in t
     ctx.check(ok_all, "REPR-CHILDREN", f"{REL}|FComponent|whole spec", "the FComponent printer prints only a fixed component of the format spec; the spec has any number of components", REL, f.line,
@@ -64,8 +81,8 @@ def check(ctx, src):
     # --- FString
     f, p = regs["hy.models.FString"]
     t = p.src()
-    ctx.check("(is-not None fstring.brackets)" in t and '"#[" fstring.brackets "["' in t and '"]" fstring.brackets "]"' in t, "REPR-ATTRS", f"{REL}|FString|brackets", "the FString printer does not reproduce bracket f-strings", REL, f.line, detail="#[D[…]D]")
-    ctx.check('(if fstring.is-tstring "t" "f")' in t, "REPR-ATTRS", f"{REL}|FString|is_tstring", "the FString printer does not distinguish t-strings", REL, f.line, detail="t / f prefix")
+    ctx.check(_mentions_attr(p, "brackets") and _has_text(p, '"#["') and _has_text(p, '"]"'), "REPR-ATTRS", f"{REL}|FString|brackets", "the FString printer does not reproduce bracket f-strings", REL, f.line, detail="#[D[…]D]")
+    ctx.check(_mentions_attr(p, "is_tstring") and _has_text(p, '"t"') and _has_text(p, '"f"'), "REPR-ATTRS", f"{REL}|FString|is_tstring", "the FString printer does not distinguish t-strings", REL, f.line, detail="t / f prefix")
     lf = [n for n in p.walk() if n.kind == "expr" and n.head() == "lfor"]
     ctx.check(len(lf) == 2 and all(n.items[1].is_sym("component") and n.items[2].is_sym("fstring") for n in lf), "REPR-CHILDREN", f"{REL}|FString|all components", "the FString printer must print every component", REL, f.line, detail="lfor component fstring")
     if len(lf) == 2:
@@ -83,6 +100,12 @@ def check(ctx, src):
     ctx.check(cat is not None and '(.join " " (map hy-repr obj))' in cat.src(), "REPR-CHILDREN", f"{REL}|_cat", "_cat must join the hy-repr of every element", REL, 0, detail="map hy-repr")
     f, p = regs["hy.models.Symbol"]
     ctx.check(p is not None and p.is_sym("str") and "hy.models.Keyword" in regs and regs["hy.models.Keyword"][0] is f, "REPR-REG", f"{REL}|Symbol/Keyword|str", "symbols and keywords print as their own text", REL, f.line, detail="str")
+    # hy.repr of a model is only reproducible when the printer's global state is restored after every call (decided under C28)
+    from . import c28 as _c28
+    from .. import core as _core
+
+    ctx.rule("REPR-PROTECT", "shared with C28: the quoting flag and the cycle set are restored in a finally around the printer call")
+    _core.transfer(ctx, src, _c28, {"REPR-PROTECT", "REPR-NEST"})
     ctx.assume("quoting-prefix state is decided under C28 and the sugar table under C20; textual round-trip of concrete models is not decided")
     ctx.floor("REPR-CHILDREN", 9)
 
